@@ -836,6 +836,9 @@ impl<'a> Runtime<'a> {
                 Value::Str(ArenaCow::Borrowed(s)) if self.pool.contains(s.as_ptr()) => {
                     Value::Str(ArenaCow::Owned(self.pool.alloc_str(s)))
                 }
+                // String items of an array argument still borrow the pool slots of the
+                // variable the array was read from; the callee may overwrite those.
+                arg @ Value::Array(..) => arg.detach(&self.pool, self.frame),
                 other => other,
             };
             param_scope.push(LocalSlot { id: maybe_local, name: param, value: arg });
